@@ -739,9 +739,93 @@ func (c C06) runArgFailures(t *tape.Tape, opt core.RunOpt) (res core.Result) {
 	return
 }
 
+// c06Repeated are requests that select one response key more than once in one
+// selection set (directly, through inline fragments, an object selected again):
+// the library makes one resolver invocation per selection.
+var c06Repeated = []string{
+	"{ title title }",
+	"{ title ... on Query { title } }",
+	"{ count title ... { title count } }",
+	"{ boss { name } boss { name } }",
+	"{ boss { name age } ... on Query { boss { name } } }",
+	"{ keepers { name } ... { keepers { name } } }",
+	"{ keepers { name age } keepers { name } }",
+	"{ animals { name } animals { name legs } }",
+	"{ boss { name name } }",
+	"{ boss { friend { name } friend { name age } } }",
+}
+
+// runRepeatedKeys is the repeated-key family of C06: when the LAST invocation
+// made for a response key fails, that position is null and has its one entry
+// (whatever an earlier invocation for the same key produced).
+func (c C06) runRepeatedKeys(t *tape.Tape, opt core.RunOpt) (res core.Result) {
+	strat := []workload.Strategy{workload.StratInterface, workload.StratAnyWrapped}[t.Draw(2)]
+	q := workload.GenZoo(t)
+	req := &workload.Request{Src: c06Repeated[t.Draw(len(c06Repeated))]}
+	c06Depth = 0
+	r0, tr0, pan := resolveTracked(q, strat, req, &workload.FaultPlan{})
+	res.Evaluations = 1
+	res.Sig = core.Hash64("c06rep", strat.String(), req.Src)
+	res.Count("probe_repeated_response_key_family", 1)
+	if pan != "" || tr0 == nil {
+		return
+	}
+	if _, has := r0["errors"]; has {
+		return
+	}
+	// the last invocation made for each path that was invoked more than once
+	last := map[string]int{}
+	count := map[string]int{}
+	for _, cl := range tr0.Calls {
+		if cl.Path == "" || cl.Type == "list" {
+			continue
+		}
+		last[cl.Path] = cl.N
+		count[cl.Path]++
+	}
+	var sites []string
+	for p, n := range count {
+		if n > 1 {
+			sites = append(sites, p)
+		}
+	}
+	sort.Strings(sites)
+	if len(sites) == 0 {
+		return
+	}
+	p := sites[t.Draw(len(sites))]
+	kind := []string{workload.FaultError, workload.FaultGGQLError, workload.FaultErrorGroup}[t.Draw(3)]
+	plan := &workload.FaultPlan{FailAt: map[int]string{last[p]: kind}}
+	resp, tr, pan := resolveTracked(q, strat, req, plan)
+	res.Evaluations++
+	desc := fmt.Sprintf("failure %s at the last of the %d invocations made for %s (invocation %d)", kind, count[p], p, last[p])
+	if opt.WantSample {
+		res.Sample = map[string]interface{}{"family": "one response key selected more than once, the last invocation for it fails", "strategy": strat.String(), "request": req.Src, "fault": desc, "response": workload.CanonLite(resp)}
+	}
+	if pan != "" {
+		res.Violate("C06", "panic_on_resolver_failure", fmt.Sprintf("resolving with %s panicked: %s\nrequest:\n%s", desc, pan, req.Src), nil)
+		return
+	}
+	if tr == nil || len(tr.Fired) == 0 {
+		return
+	}
+	res.NonTrivial = true
+	// the fault-free data with the failed position nulled is what the data must
+	// be: c06Check works from the positions of the fired failures
+	cls, detail := c06Check(strat, true, r0, resp, tr.Fired)
+	if cls != "" {
+		res.Violate("C06", cls, fmt.Sprintf("%s strategy, %s: %s\nrequest:\n%s\nfault-free response: %s\nfaulted response:    %s",
+			strat, desc, detail, req.Src, workload.CanonLite(r0), workload.CanonLite(resp)), nil)
+	}
+	return
+}
+
 func (c C06) Run(t *tape.Tape, opt core.RunOpt) (res core.Result) {
 	if t.Bool(1, 12) {
 		return c.runSubscription(t, opt)
+	}
+	if t.Bool(1, 14) {
+		return c.runRepeatedKeys(t, opt)
 	}
 	if t.Bool(1, 12) {
 		return c.runArgFailures(t, opt)
